@@ -390,7 +390,11 @@ func runC20(c *Ctx) error {
 		}
 		stopped := make(chan bool, 1)
 		go func() { stopped <- B.Stop() }()
-		time.Sleep(time.Duration(50+c.Rng.IntN(250)) * time.Millisecond) // B is shutting down: its peering manager has closed the links it knew
+		// B is shutting down: once its peering manager is done it has closed the links it knew
+		for t0 := time.Now(); !B.Peering().Manager().IsDone() && time.Since(t0) < 20*time.Second; {
+			time.Sleep(5 * time.Millisecond)
+		}
+		time.Sleep(time.Duration(50+c.Rng.IntN(250)) * time.Millisecond)
 		close(release)
 		okStop, returned := false, false
 		select {
@@ -400,17 +404,18 @@ func runC20(c *Ctx) error {
 		}
 		// the handshake may complete a moment after the stop returned
 		var linksB int
-		var linkAtA bool
+		var linkAtA, everA, everB bool
 		for t0 := time.Now(); time.Since(t0) < 4*time.Second; time.Sleep(100 * time.Millisecond) {
 			linksB = len(B.Peering().GetLinks())
 			linkAtA = A.Peering().GetLink(ids[1].IP) != nil
+			everA, everB = everA || linkAtA, everB || linksB > 0
 			if time.Since(t0) > 1500*time.Millisecond && linksB == 0 && !linkAtA {
 				break
 			}
 		}
 		c.Eval()
 		c.Count("instance-cycle:stop-during-link-setup")
-		rep2 := map[string]any{"cfg": "stop-during-link-setup", "dialled_before_stop": dialled, "stop_returned": returned, "stop_ok": okStop, "links_at_stopped_router": linksB, "running_router_still_linked": linkAtA}
+		rep2 := map[string]any{"cfg": "stop-during-link-setup", "dialled_before_stop": dialled, "stop_returned": returned, "stop_ok": okStop, "links_at_stopped_router": linksB, "running_router_still_linked": linkAtA, "link_seen_at_running_router": everA, "link_seen_at_stopped_router": everB}
 		c.Sample(rep2)
 		if dialled {
 			c.NonTrivial("instance/stop-during-link-setup")
